@@ -74,11 +74,17 @@ class PrinterTransactionContext(AbstractPrinter):  # pylint: disable=too-few-pub
 
         filename = dest / filename
         function = list(self.teal.functions.values())[0]
+        # The function has its own copy of the blocks which are not part of a subroutine.
+        function_blocks = {bi.idx: bi for bi in function.blocks}
 
         def get_info(bb: "BasicBlock") -> List[str]:
             # NOTE: use the first function for now as `init_tealer_from_single_contract` uses entire contract as single function.
-            group_indices_str = self._repr_num_list(function.transaction_context(bb).group_indices)
-            group_sizes_str = self._repr_num_list(function.transaction_context(bb).group_sizes)
+            if bb.idx not in function_blocks:
+                # e.g a subroutine which is only called from unreachable code. The block is not part of the function.
+                return []
+            block_context = function.transaction_context(function_blocks[bb.idx])
+            group_indices_str = self._repr_num_list(block_context.group_indices)
+            group_sizes_str = self._repr_num_list(block_context.group_sizes)
             return [f"GroupIndex: {group_indices_str}", f"GroupSize: {group_sizes_str}"]
 
         config = CFGDotConfig()
